@@ -142,10 +142,18 @@ def c05(tier, seed):
                   extra_sources=("vclock.c",)))
     c.add(Run("h_cond", "asan", ["--seed", seed + 77, "--mode", "script", "--shapes", 150 if q else 1500, "--max-n", 5,
                                  "--watchdog", 120], weight=2, tag="script-asan", extra_sources=("vclock.c",)))
+    # atomic release-and-wait: a signaller that owns the mutex after the waiter released it inside the wait cannot be missed
+    for i, s in enumerate(seeds(seed, 3 if q else 16, salt=8)):
+        c.add(Run("h_cond", ("mon", "mon", "tsan")[i % 3], ["--seed", s, "--mode", "handoff", "--rounds", 4 if q else 12,
+                                                        "--trials", 3000 if q else 20000,
+                                                        "--delay", ("off", hammer("COND_WAIT_AFTER_UNLOCK",
+                                                                                  "MUTEX_UNLOCK_BEFORE_RELEASE"))[i % 2],
+                                                        "--watchdog", 120 if q else 900], weight=4, tag="handoff%d" % i,
+                  extra_sources=("vclock.c",)))
     c.nontrivial = lambda r: has_cov(r, "WAITLIST_ULT_WAIT") or (r.result or {}).get("scenario") == "cond_script"
     c.required_points = ["WAITLIST_ULT_WAIT", "SIGNAL_ULT", "BROADCAST_EXT", "TIMEDOUT_REMOVE_HEAD",
                          "TIMEDOUT_REMOVE_MIDDLE", "TIMEDOUT_REMOVE_TAIL", "SIGNAL_EXT_AFTER_READY"]
-    c.required_counters = ["waits", "timedwaits", "timeouts", "signals", "broadcasts", "waits_by_external",
+    c.required_counters = ["handoff_trials", "handoff_timed_waits", "deadline_far_future_in_soup", "waits", "timedwaits", "timeouts", "signals", "broadcasts", "waits_by_external",
                            "wrong_mutex_rejected", "signal_with_no_waiter", "shapes"]
     return c
 
@@ -380,6 +388,10 @@ def c17(tier, seed):
               env=env, weight=16, tag="asan"))
     c.add(Run("h_rank", "tsan", ["--seed", seed + 6, "--scenarios", 1, "--ops", 60, "--conc-ops", 30, "--watchdog", 120],
               env=env, weight=16, tag="tsan"))
+    # stream lifecycle: join overlapping a replacement of the main scheduler, join / revive / idle / work / join
+    for i, s in enumerate(seeds(seed, 2 if q else 10, salt=7)):
+        c.add(Run("h_units", "mon", ["--seed", s, "--mode", "joinmix", "--scenarios", 60 if q else 400, "--delay",
+                                     ("uniform", "off")[i % 2], "--watchdog", 90 if q else 600], weight=4, tag="joinmix%d" % i))
     c.nontrivial = lambda r: True
     c.required_points = ["RANK_INSERT_MIDDLE", "RANK_INSERT_TAIL", "RANK_GAP_REUSED"]
     c.required_counters = ["create_smallest_unused", "create_with_rank_granted", "create_with_rank_refused_duplicate",
